@@ -103,7 +103,7 @@ func c11SchedScenarios(tier string) []schedScenario {
 	for n := 0; n <= maxN; n++ {
 		n := n
 		out = append(out, schedScenario{Name: fmt.Sprintf("spool-complete-restart/N=%d/bound=%d", n, bound), Class: "restart-after-complete", Ordered: true,
-			Want: []string{"complete count=" + fmt.Sprint(n), "restart COMPLETE count=" + fmt.Sprint(n)},
+			Want:  []string{"complete count=" + fmt.Sprint(n), "restart COMPLETE count=" + fmt.Sprint(n)},
 			Bound: bound, CapMap: small, Budget: budget,
 			Body: func() {
 				dir := tmp()
